@@ -102,6 +102,10 @@ def documents(ctx, big=False):
         docs += pumps(ctx, n)
     docs += deep_pumps(ctx)
     docs += gen.slot_sweep()
+    # destinations: URLs assembled from their components (valid and invalid IDN hosts, IPv6 literals, unsafe characters) in every place a destination can stand,
+    # and links whose destination part is cut or unbalanced, followed by ordinary text
+    docs += [gen.url_doc(ctx.rng) for _ in range(600 if q else 8000)]
+    docs += [gen.link_tail(ctx.rng) for _ in range(400 if q else 6000)]
     return docs
 
 
